@@ -5,6 +5,7 @@ import GopatchModel.Walk
 import GopatchModel.MetaP
 import GopatchModel.Finder
 import GopatchModel.SplitPatch
+import GopatchModel.Loader
 import GopatchModel.Spec.RewriteSpec
 import GopatchModel.Intervals
 import GopatchModel.AstDiff
@@ -277,7 +278,12 @@ def augsOKOfVersion (v : Sec.Version) (side : List Sx) : Option Bool :=
   if (Sx.field side "scanerr").length > 0 then none else
   match Fnd.findTotal (decodeFndToks side) with
   | none => none
-  | some augs => some (Fnd.augsOKB v.contents 0 (Fnd.sortByStart augs))
+  | some augs =>
+      let sorted := Fnd.sortByStart augs
+      -- AugsOK, and every elision lies over three dots of the version (the hypotheses of every_elision_is_recorded_at_its_three_dots)
+      some (Fnd.augsOKB v.contents 0 sorted && sorted.all (fun a => match a with
+        | .dots s _ _ => v.contents[s]? == some 46 && v.contents[s + 1]? == some 46 && v.contents[s + 2]? == some 46
+        | _ => true))
 
 def dotsStr (tag : String) : Option (List (Nat × Nat)) → String
   | none => s!"({tag} illformed)"
@@ -302,6 +308,26 @@ def handleSplit (id : String) (xs : List Sx) : String :=
   let nok := (hyps.filter (· == some true)).length
   let nbad := (hyps.filter (· == some false)).length
   s!"(res {id} (split{String.join splitS}) (dots{String.join dotsS}) (hyp {nok} {nbad}))"
+
+/-- `loadPatches`: which patch sources a run reads and in which order, or where it fails -/
+def handleLoad (id : String) (xs : List Sx) : String :=
+  let bytesOf := fun (x : Sx) => x.asStr.toUTF8.toList
+  let flags := (Sx.field xs "flags").map bytesOf
+  let (listPath, listContent) : Load.Bytes × Option Load.Bytes := match Sx.field xs "list" with
+    | [p, .atom "none"] => (bytesOf p, none)
+    | [p, h] => (bytesOf p, some (unhex h.asStr.toList))
+    | _ => ([], none)
+  let goodNames := (Sx.field xs "good").map bytesOf
+  let good : Load.Src → Bool := fun s => match s with
+    | .stdin => (Sx.field xs "stdingood").length > 0
+    | .file p => goodNames.contains p
+  let show_ := fun (s : Load.Src) => match s with
+    | .stdin => " stdin"
+    | .file p => " " ++ q (bytesStr p)
+  match Load.loadPatches good flags listPath listContent with
+  | .loaded l => s!"(res {id} (loaded{String.join (l.map show_)}))"
+  | .failed (some s) => s!"(res {id} (failed{show_ s}))"
+  | .failed none => s!"(res {id} (failed list))"
 
 def handleAugment (id : String) (xs : List Sx) : String :=
   if (Sx.field xs "scanerr").length > 0 then s!"(res {id} (err))" else
@@ -416,6 +442,7 @@ def handleLine (sc : Option Schema) (line : String) : String :=
   | .list (.atom "case" :: id :: .atom "front" :: xs) => handleFront id.asStr xs
   | .list (.atom "case" :: id :: .atom "augment" :: xs) => handleAugment id.asStr xs
   | .list (.atom "case" :: id :: .atom "split" :: xs) => handleSplit id.asStr xs
+  | .list (.atom "case" :: id :: .atom "load" :: xs) => handleLoad id.asStr xs
   | .list (.atom "case" :: id :: .atom "comments" :: xs) => handleComments id.asStr xs
   | .list (.atom "case" :: id :: .atom "astdiff" :: xs) => handleAstdiff id.asStr xs
   | .list (.atom "case" :: id :: .atom "changelog" :: xs) => handleChangelog id.asStr xs
